@@ -1,16 +1,18 @@
 #!/bin/sh
 # for every seeded mutant: run the check of its own property; when that stays silent, the checks listed as fallbacks.
-# writes lines "<mutant> <check> <exit>" to $OUT (default /tmp/mutant_matrix.txt)
+# writes lines "<mutant> <check> <exit>" to $OUT (default /tmp/mutant_matrix.txt); PAR mutants at a time
 OUT=${OUT:-/tmp/mutant_matrix.txt}
+PAR=${PAR:-3}
 : > "$OUT"
-for d in /verif/seeded/*/; do
-  name=$(basename "$d"); prop=$(echo "$name" | sed 's/[b]*_.*//')
-  hit=0
+one() {
+  d="$1"; name=$(basename "$d"); prop=$(echo "$name" | sed 's/^\(C[0-9][0-9]\).*/\1/')
   for chk in $prop $(cat "$d/fallback" 2>/dev/null); do
-    VERIF_NPROC=${VERIF_NPROC:-6} /verif/tools/try_mutant.sh "$d/patch.diff" $chk quick > /tmp/mm_$name.log 2>&1
+    VERIF_NPROC=${VERIF_NPROC:-5} /verif/tools/try_mutant.sh "$d/patch.diff" $chk quick > /tmp/mm_$name.log 2>&1
     rc=$?
     echo "$name $chk $rc" >> "$OUT"
-    [ $rc = 1 ] && hit=1 && break
+    [ $rc = 1 ] && break
   done
-done
+}
+if [ -n "$1" ]; then one "$1"; exit 0; fi
+ls -d /verif/seeded/*/ | sed 's:/$::' | OUT="$OUT" xargs -P "$PAR" -n 1 "$0"
 echo done >> "$OUT"
